@@ -1,4 +1,82 @@
-import MementoModel.Model.Store
+import MementoModel.Lemmas.StoreLemmas
+import MementoModel.Lemmas.StoreRO
+import MementoModel.Props.C05
+
+/-!
+# C19 — read-only and null back-ends never write and never execute
+
+On the storage models of `Model/Store.lean`. (The null *runner* is part of the runner model.)
+-/
 namespace Memento.Store
-theorem placeholder_c19 : (MemBackend.init true).readOnly = true := rfl
+
+/-- one step through a read-only filesystem backend (any cache) changes nothing in the store
+    (data and metadata objects, links, uuid supply) and the backend stays read-only -/
+theorem ro_no_write_step (s : FsBackend) (op : Op) (h : s.readOnly = true) :
+    (FsBackend.step s op).1.ds = s.ds ∧ (FsBackend.step s op).1.readOnly = true := by
+  exact ⟨(FsBackend.step_ro_same s op h).1, (FsBackend.step_ro_same s op h).2.1.trans h⟩
+
+/-- **no sequence** of calls, memoize, metadata or forget operations modifies the store -/
+theorem ro_no_write (s : FsBackend) (ops : List Op) (h : s.readOnly = true) :
+    (runFs s ops).1.ds = s.ds := by
+  induction ops generalizing s with
+  | nil => rfl
+  | cons op ops ih =>
+    obtain ⟨h1, h2⟩ := ro_no_write_step s op h
+    simp only [runFs]
+    exact (ih _ h2).trans h1
+
+/-- memoize is silently skipped; forget and metadata writes are rejected -/
+theorem ro_mutators (s : FsBackend) (h : s.readOnly = true) (fn arg ov mem val sz wr k b) :
+    (FsBackend.step s (.memoize fn arg ov mem val sz wr)).2 = .unit ∧
+    (FsBackend.step s (.fcall fn arg)).2 = .valueError ∧
+    (FsBackend.step s (.ffn fn)).2 = .valueError ∧
+    (FsBackend.step s .fall).2 = .valueError ∧
+    (FsBackend.step s (.wmeta fn arg k b)).2 = .valueError := by
+  simp [FsBackend.step, h]
+
+def Op.isRead : Op → Bool
+  | .getm _ | .lookread _ _ | .ismem _ _ | .lsf | .lsm _ | .rmeta _ _ _ => true
+  | _ => false
+
+/-- reads keep working: a read through the read-only backend answers what the dictionary answers
+    (the flag is not consulted by any read path; `WF` is about the writable twin) -/
+theorem ro_reads_as_dictionary (s : FsBackend) (op : Op) (hr : Op.isRead op = true)
+    (h : WF { s with readOnly := false }) :
+    (FsBackend.step s op).2 = (Spec.step (FsBackend.abs s) op).2 := by
+  have hr' : FsBackend.isReadOp op = true := by cases op <;> first | rfl | cases hr
+  have := (fs_refines h op (by cases op <;> first | trivial | cases hr)).1
+  rw [show ({ s with readOnly := false } : FsBackend) = FsBackend.setRO s false from rfl,
+    FsBackend.step_setRO_out s false op hr'] at this
+  exact this
+
+/-- the source of the flag is irrelevant: the model has a single flag (constructor argument and
+    `readonly` config key are merged by `StorageBackend.__init__`; that merge is `Config.lean`, C18) -/
+theorem mem_ro_no_write_step (s : MemBackend) (op : Op) (h : s.readOnly = true) :
+    (MemBackend.step s op).1 = s := by
+  exact MemBackend.step_ro s op h
+
+theorem mem_ro_no_write (s : MemBackend) (ops : List Op) (h : s.readOnly = true) :
+    (runMem s ops).1 = s := by
+  induction ops generalizing s with
+  | nil => rfl
+  | cons op ops ih =>
+    have h1 := mem_ro_no_write_step s op h
+    simp only [runMem]
+    rw [h1]; exact ih s h
+
+/-- the null storage never reports anything as memoized, after any history -/
+theorem null_never_memoized (fn arg : Nat) (ks : List (Fn × Arg)) :
+    nullStep (.ismem fn arg) = .bool false ∧ nullStep (.lookread fn arg) = .val none ∧
+    nullStep (.getm ks) = .mems (ks.map (fun _ => none)) ∧ nullStep .lsf = .fns [] := by
+  exact ⟨rfl, rfl, rfl, rfl⟩
+
+/-! non-vacuity: a populated store reopened read-only -/
+private def populated : FsBackend :=
+  (runFs (FsBackend.init false (some 100) false)
+    [.memoize 1 1 none 10 (some 7) 40 false, .memoize 2 1 (some 1) 11 (some 8) 40 false]).1
+
+example : (runFs { populated with readOnly := true }
+    [.memoize 1 2 none 12 (some 9) 40 false, .fcall 1 1, .lookread 1 1, .fall, .wmeta 1 1 1 5]).2
+    = [.unit, .valueError, .val (some (some 7)), .valueError, .valueError] := by decide
+
 end Memento.Store
